@@ -138,6 +138,7 @@ def run(ctx, only=None):
     quick = ctx.tier == "quick"
     broken = []
     cfg = None
+    wake = {}
     # ------------------------------------------------------------------ build
     try:
         ctx.build.boot()
@@ -150,6 +151,7 @@ def run(ctx, only=None):
         try:
             cfg = gen_wait.extract(tree)
             ctx.gen("Wait.lean", gen_wait.render(cfg))
+            wake = gen_wait.wake_sites(tree)
         except ExtractError as e:
             broken.append("translator tools/gen/wait.py: %s" % e)
             ctx.broken.append(broken[-1])
@@ -163,9 +165,9 @@ def run(ctx, only=None):
                 ctx.n_dis += 1
             else:
                 missing = [k for k, v in cfg.items() if v is False]
-                broken.append("hypothesis `cfg.allChecked` of resume_only_by_current_wait / stale_inert / deadline_scoped / sleep_not_early / "
-                              "immediate_select_give_registers_nothing fails for the current source: sites without the generation / "
-                              "status / ordering check: %s" % ", ".join(missing))
+                broken.append("hypothesis `cfg.allChecked` of resume_only_by_current_wait / resumed_only_by_registration_of_current_wait / "
+                              "stale_inert / deadline_scoped / sleep_not_early / immediate_select_give_registers_nothing fails for the "
+                              "current source: sites without the generation / status / ordering check: %s" % ", ".join(missing))
                 ctx.broken.append(broken[-1])
             ctx.obl_names.append("tie: Gen.Wait.cfg.allChecked = true (sites extracted from the current ev.c / os.c)")
         if not quick:
@@ -309,6 +311,7 @@ def run(ctx, only=None):
         "oracle_failures_by_signature": dict(counts),
         "correspondence_scenarios": ncorr, "correspondence_diffs": ndiff,
         "site_configuration": cfg,
+        "wake_up_sites": {k: "%d call(s): %s" % (v[1], v[0]) for k, v in sorted(wake.items())},
     }
     return ctx.finish("proof", cov, assumptions=[
         "kernel (epoll readiness, pipes, process reaping) and time are inputs of the model; stream / process waits are proved on "
